@@ -228,6 +228,10 @@ def validate_any(run, F, b, t, T, checked):
         const, how = r[2][0][1], "contains"
     elif is_call(r, "std::result::Result::<T, E>::is_ok") and is_call(r[2][0], "core::slice::<impl [T]>::binary_search") and r[2][0][2][0][0] == "def":
         const, how = r[2][0][2][0][1], "binary_search"
+    if const is None and is_call(r, "std::iter::Iterator::any") and is_call(r[2][0], "core::slice::<impl [T]>::iter") and r[2][0][2][0][0] == "def" and r[2][1][0] == "closure":
+        inner = closure_paths(b, r[2][1])
+        if len(inner) == 1 and inner[0].ret[0] == "bin" and inner[0].ret[1] == "Eq":
+            const, how = r[2][0][2][0][1], "contains"   # CONST.iter().any(|s| s == k) is a linear membership test
     if const is None:
         if key not in checked:
             checked.add(key)
